@@ -9,6 +9,9 @@ use checks::runner::{parse_args, Runner, Viol};
 use pdatastructs::filters::Filter;
 use serde_json::json;
 
+static FC_FAILING: std::sync::atomic::AtomicU64 = std::sync::atomic::AtomicU64::new(0);
+static FC_CONTS: std::sync::atomic::AtomicU64 = std::sync::atomic::AtomicU64::new(0);
+
 fn main() {
     let args = parse_args();
     let mut run = Runner::new("C12", &args.tier, "model_checking");
@@ -58,6 +61,20 @@ fn main() {
             ps.fail_last += ps2.fail_last;
             pv.extend(pv2);
         }
+        if ex.viols.is_empty() && pv.is_empty() {
+            // failed call == no-op for every continuation of two operations (state the BFS key cannot see)
+            let cap = model.cfg.capacity() as u32;
+            let near_all: Vec<&qf::St> = ex.states.iter().filter(|s| s.off == 0 && !s.tainted && s.set.count_ones() + 1 >= cap).collect();
+            let want = if thorough { 400 } else { 40 };
+            let stride = (near_all.len() / want).max(1);
+            let starts: Vec<qf::St> = near_all.iter().step_by(stride).take(want).map(|s| (*s).clone()).collect();
+            let small: Vec<qf::St> = ex.states.iter().filter(|s| s.off == 0 && s.set.count_ones() >= 1 && s.set.count_ones() <= 2).step_by(if thorough { 3 } else { 11 }).take(if thorough { 24 } else { 6 }).cloned().collect();
+            let r = qf::failure_continuations(&model, &starts, &small, n_threads());
+            FC_FAILING.fetch_add(r.0, std::sync::atomic::Ordering::Relaxed);
+            FC_CONTS.fetch_add(r.1, std::sync::atomic::Ordering::Relaxed);
+            ps.pairs += r.1;
+            pv.extend(r.2);
+        }
         fu_first += ps.fail_first;
         fu_mid += ps.fail_middle;
         fu_last += ps.fail_last;
@@ -92,6 +109,8 @@ fn main() {
         let cm = match CfModel::new(cfg.clone(), Mode::Classes, true) {
             Ok(mut m) => {
                 m.focus = "C12";
+                m.with_union = true; // failing unions anywhere inside the sequences (failed union, delete, failed insert, ...)
+                m.lookahead = cfg.budget == Some(1) && cfg.bucketsize * cfg.n_buckets <= 4;
                 m
             }
             Err(e) => return Err((label, e)),
@@ -108,6 +127,20 @@ fn main() {
             ps = r.0;
             pv = r.1;
         }
+        // failed call == no-op for every continuation of two operations (finds state the BFS key cannot see)
+        let mut fc = (0u64, 0u64);
+        if cex.viols.is_empty() && pv.is_empty() && cfg.budget.is_some() {
+            let cap = cfg.bucketsize * cfg.n_buckets;
+            let full = std::env::args().any(|a| a == "thorough");
+            let lim = if full { 1500 } else { 80 };
+            let starts: Vec<cuckoo::St> = cex.states.iter().filter(|s| s.off == 0 && !s.tainted && s.f.len() + 2 >= cap).take(lim).cloned().collect();
+            let r = cuckoo::failure_continuations(&cm, &starts, 1, full);
+            fc = (r.0, r.1);
+            pv.extend(r.2);
+        }
+        ps.runs += fc.1;
+        FC_FAILING.fetch_add(fc.0, std::sync::atomic::Ordering::Relaxed);
+        FC_CONTS.fetch_add(fc.1, std::sync::atomic::Ordering::Relaxed);
         Ok((label, cex, ps, pv))
     });
     let (mut cs, mut ct, mut cfi, mut cfu, mut cres_n) = (0u64, 0u64, 0u64, 0u64, 0u64);
@@ -142,6 +175,7 @@ fn main() {
             run.violation(v);
         }
     }
+    run.ev.set("failed_call_continuations", json!({"failing_operations": FC_FAILING.load(std::sync::atomic::Ordering::Relaxed), "two_step_continuations_compared_with_the_run_without_the_failed_call": FC_CONTS.load(std::sync::atomic::Ordering::Relaxed)}));
     run.ev.set("failing_calls", json!({"quotient_inserts": fi, "quotient_unions_first/middle/last": [fu_first, fu_mid, fu_last], "cuckoo_inserts": cfi, "cuckoo_unions": cfu}));
     // vacuity guard: every class of failing call must actually have been exercised
     if run.n_violations() == 0 && (fi == 0 || fu_first == 0 || fu_mid == 0 || fu_last == 0 || cfi == 0 || c_first == 0 || c_mid == 0 || c_last == 0) {
